@@ -10,7 +10,11 @@
  *      -999 malformed line; -998 = tdma_sched_execute reached a stored NULL callback (the call would jump to 0: a stand-in records it, history ends);
  *      -997 = set array without SCHED_END_SET (the loop would read past the array: not executed, history ends).
  * callback ids: 0 = NULL (SCHED_END_FRAME), 1 = &tdma_end_set, 2..11 loggers returning 0, 12 logger returning p1,
- *               13 logger returning -1, 14 logger returning -(p1+1). */
+ *               13 logger returning -1, 14 logger returning -(p1+1),
+ *               15 SPAWN: logs itself, then calls the real tdma_schedule(p2, cbtab[2 + p1 % 8], p1, p2, p3, (int16_t)(p1 - 128)) from inside
+ *                  tdma_sched_execute(), logs (-2 p2 child_cb rc) and returns 0 whatever rc was;
+ *               16 RSPAWN: logs itself, calls tdma_sched_reset(), logs (-3 items_stored 0 0), then does what 15 does (prim_fbsb.c pattern).
+ *   c08 v1 [<] lines     -> the same, callback ids 15 / 16 are rejected as malformed (what Model w_c08_run decodes; w_c08_runsp takes 0..16). */
 #include <stdio.h>
 #include <stdlib.h>
 #include <string.h>
@@ -32,12 +36,13 @@ static int c08_quiet_putchar(int c) { return c; }
 #undef puts
 #undef putchar
 
-#define NCBK 15
+#define NCBK 17
+static int ncbk = NCBK;
 #define MAXLOG 4096
 static long lg[MAXLOG][4];
 static int nlg;
 
-static int logit(int id, uint8_t p1, uint8_t p2, uint16_t p3)
+static int logit(int id, long p1, long p2, long p3)
 {
 	if (nlg < MAXLOG) { lg[nlg][0] = id; lg[nlg][1] = p1; lg[nlg][2] = p2; lg[nlg][3] = p3; }
 	nlg++;
@@ -47,10 +52,28 @@ static int logit(int id, uint8_t p1, uint8_t p2, uint16_t p3)
 LOGGER(2, 0) LOGGER(3, 0) LOGGER(4, 0) LOGGER(5, 0) LOGGER(6, 0) LOGGER(7, 0) LOGGER(8, 0) LOGGER(9, 0) LOGGER(10, 0) LOGGER(11, 0)
 LOGGER(12, p1) LOGGER(13, -1) LOGGER(14, -((int)p1 + 1))
 
+static tdma_sched_cb *cbtab[NCBK];
+static int spawn(int id, uint8_t p1, uint8_t p2, uint16_t p3)
+{
+	int rc, child = 2 + p1 % 8;
+	logit(id, p1, p2, p3);
+	if (id == 16) {
+		int b, tot = 0;
+		tdma_sched_reset();
+		for (b = 0; b < (int)ARRAY_SIZE(l1s.tdma_sched.bucket); b++) tot += l1s.tdma_sched.bucket[b].num_items;
+		logit(-3, tot, 0, 0);
+	}
+	rc = tdma_schedule(p2, cbtab[child], p1, p2, p3, (int16_t)((int)p1 - 128));
+	logit(-2, p2, child, rc);
+	return 0;
+}
+static int cb_15(uint8_t p1, uint8_t p2, uint16_t p3) { return spawn(15, p1, p2, p3); }
+static int cb_16(uint8_t p1, uint8_t p2, uint16_t p3) { return spawn(16, p1, p2, p3); }
+
 static int null_called;
 static int cb_null_trap(uint8_t p1, uint8_t p2, uint16_t p3) { null_called = 1; return -12345; }
 
-static tdma_sched_cb *cbtab[NCBK] = { NULL, &tdma_end_set, cb_2, cb_3, cb_4, cb_5, cb_6, cb_7, cb_8, cb_9, cb_10, cb_11, cb_12, cb_13, cb_14 };
+static tdma_sched_cb *cbtab[NCBK] = { NULL, &tdma_end_set, cb_2, cb_3, cb_4, cb_5, cb_6, cb_7, cb_8, cb_9, cb_10, cb_11, cb_12, cb_13, cb_14, cb_15, cb_16 };
 
 static int cb_id(tdma_sched_cb *f)
 {
@@ -91,13 +114,13 @@ static void run_line(int n)
 	/* validate the whole line first (the model rejects a malformed line as a whole) */
 	for (i = 1; i < n; ) {
 		long c = tok[i];
-		if (c == 1) { if (i + 7 > n || tok[i + 2] < 0 || tok[i + 2] >= NCBK) { printf("-999\n"); return; } i += 7; }
+		if (c == 1) { if (i + 7 > n || tok[i + 2] < 0 || tok[i + 2] >= ncbk) { printf("-999\n"); return; } i += 7; }
 		else if (c == 2) {
 			long cnt;
 			if (i + 4 > n) { printf("-999\n"); return; }
 			cnt = tok[i + 3];
 			if (cnt < 0 || cnt > 64 || i + 4 + 5 * cnt > n) { printf("-999\n"); return; }
-			for (k = 0; k < cnt; k++) if (tok[i + 4 + 5 * k] < 0 || tok[i + 4 + 5 * k] >= NCBK) { printf("-999\n"); return; }
+			for (k = 0; k < cnt; k++) if (tok[i + 4 + 5 * k] < 0 || tok[i + 4 + 5 * k] >= ncbk) { printf("-999\n"); return; }
 			i += 4 + 5 * cnt;
 		} else if (c == 3 || c == 4 || c == 5) i++;
 		else { printf("-999\n"); return; }
@@ -177,6 +200,7 @@ static void run_line(int n)
 int main(int argc, char **argv)
 {
 	if (argc > 1 && !strcmp(argv[1], "const")) { dump_consts(); return 0; }
+	if (argc > 1 && !strcmp(argv[1], "v1")) ncbk = 15;
 	setvbuf(stdout, NULL, _IOFBF, 1 << 16);
 	while (fgets(line, sizeof(line), stdin)) {
 		int n = 0;
